@@ -172,6 +172,8 @@ def core_sites(chk):
         vals = assigned_values(gf, c.func.id)
 
         def ok(v):
+            if isinstance(v, ast.Constant) and v.value is None:
+                return True  # "nothing registered" placeholder on the not-found arm
             if isinstance(v, ast.Subscript) and unparse(v.value) == "self.registry":
                 return True
             if isinstance(v, ast.Call) and isinstance(v.func, ast.Attribute) and v.func.attr == "get" and unparse(v.func.value) == "self.registry":
@@ -183,7 +185,7 @@ def core_sites(chk):
             tup = [n for n in iter_own_nodes(gf.node) if isinstance(n, ast.Assign) and len(n.targets) == 1 and isinstance(n.targets[0], (ast.Tuple, ast.List))
                    and any(isinstance(e, ast.Name) and e.id == c.func.id for e in n.targets[0].elts)]
             return len(tup) == len(vals) and all(isinstance(n.value, ast.Call) and any(t.cls is gf.cls for t in ctx.targets(gf, n.value)) for n in tup)
-        return bool(vals) and all(v is not None and ok(v) for v in vals)
+        return bool(vals) and all(v is not None and ok(v) for v in vals) and any(not isinstance(v, ast.Constant) for v in vals)
     for s in site_of(gf, from_registry, "extractor call"):
         out.append((gf, s, "exception extractor"))
     su = ctx.func("_util", "safeunicode")
